@@ -130,6 +130,10 @@ fn write_token(token: &Token, out: &mut String) {
             unit,
         } => {
             write_int(*has_sign, *value, *int_value, out);
+            if needs_e_escape(unit) {
+                write_e_escaped_unit(unit, out);
+                return;
+            }
             // the unit (with its escapes) as the generic serializer writes it after the number `1`
             let mut one = String::new();
             Token::Dimension {
@@ -142,6 +146,36 @@ fn write_token(token: &Token, out: &mut String) {
             .unwrap();
             out.push_str(&one[1..]);
         }
+        // a unit like `e5` must not be glued to the number (`7e5` is a number): the generic serializer
+        // does not escape a unit that starts with `e` and a digit
+        Token::Dimension {
+            has_sign,
+            value,
+            int_value: None,
+            unit,
+        } if needs_e_escape(unit) => {
+            Token::Number {
+                has_sign: *has_sign,
+                value: *value,
+                int_value: None,
+            }
+            .to_css(out)
+            .unwrap();
+            write_e_escaped_unit(unit, out);
+        }
         _ => token.to_css(out).unwrap(),
     }
+}
+
+fn needs_e_escape(unit: &str) -> bool {
+    let b = unit.as_bytes();
+    // (`e`, `E`, `e-…`, `E-…` are escaped by the generic serializer too, but always as a lower-case `e`)
+    !b.is_empty()
+        && (b[0] == b'e' || b[0] == b'E')
+        && (b.len() == 1 || b[1].is_ascii_digit() || b[1] == b'-')
+}
+
+fn write_e_escaped_unit(unit: &str, out: &mut String) {
+    out.push_str(if unit.starts_with('e') { "\\65 " } else { "\\45 " });
+    cssparser::serialize_name(&unit[1..], out).unwrap();
 }
